@@ -172,11 +172,14 @@ var zxCorpus = []zxQuery{
 	{"SELECT a FROM t GROUP BY y ORDER BY y, _time LIMIT 1, 1", true},
 	{"SELECT a, b FROM t GROUP BY x HAVING a > b ORDER BY x DESC, _time LIMIT 1", true},
 	{"SELECT a FROM t WHERE x IN (SELECT x FROM t WHERE y = 1) GROUP BY x, y", false},
+	{"SELECT a FROM (SELECT a FROM (SELECT a FROM t GROUP BY x, y) GROUP BY x, y) GROUP BY y", false},
+	{"SELECT a FROM (SELECT a FROM (SELECT a, b FROM t GROUP BY x, y) GROUP BY x) GROUP BY x", false},
+	{"SELECT a FROM (SELECT a FROM t GROUP BY x, y) GROUP BY y", false},
 }
 
 var zxPartitionKeys = [][]string{{"x"}, {"x", "y"}, nil}
 
-//zx:harness prop=C11+C10 id=C11.V tier=quick mode=real shard=q:24,keys:3 R=2 NP=2 quick.ny=2 quick.nperiods=1 thorough.R=3 thorough.NP=3 paths=20000
+//zx:harness prop=C11+C10 id=C11.V tier=quick mode=real shard=q:27,keys:3 R=2 NP=2 quick.ny=2 quick.nperiods=1 thorough.R=3 thorough.NP=3 paths=20000
 func zxC11Validate() {
 	q := zxCorpus[vrtShape("q", len(zxCorpus))]
 	partitionBy := zxPartitionKeys[vrtShape("keys", len(zxPartitionKeys))]
